@@ -60,10 +60,12 @@ fn lab(len: usize) -> Vec<u8> {
 fn wire_roundtrip(n: &Name, rng: &mut StdRng) -> (bool, Value, Value) {
     // emit after a prefix (message offset) and after related names, compressed or not
     let mut buf = Vec::new();
-    let offset: usize = match rng.random_range(0..4) {
+    let offset: usize = match rng.random_range(0..6) {
         0 => 0,
         1 => 12,
         2 => rng.random_range(0x3FF0..0x4010),
+        3 => rng.random_range(1000..0x3F00), // pointer targets that need more than 10 bits
+        4 => [255usize, 256, 1023, 1024, 4095, 4096, 8191, 8192][rng.random_range(0..8)],
         _ => rng.random_range(0..600),
     };
     buf.resize(offset, 0xEE);
